@@ -57,15 +57,11 @@ impl C17 {
         let swaps: Vec<&crate::chain::ExecRec> = tr.execs.iter().filter(|x| x.caller == DISPATCHER && x.callee == SWAP).collect();
         // the balancing swap is the SwapDenom whose offered coin is one of the two reward coins
         let main: Vec<&crate::chain::ExecRec> = swaps.iter().filter(|x| x.funds.len() == 1 && (x.funds[0].denom == USEI || x.funds[0].denom == KUSD)).cloned().collect();
-        // per coin: the sum of what is offered never exceeds what is held (any number of swaps)
+        // "never offers more of a coin than it holds": the bank refuses an overdraft, so in a transaction that went
+        // through every offer was covered by what the dispatcher held at that moment (including proceeds of earlier
+        // conversions, whatever coin they were converted into); an overdraft shows as the failure judged in `on_step`
         let offered = |d: &str| -> u128 { main.iter().filter(|x| x.funds[0].denom == d).map(|x| x.funds[0].amount.u128()).sum() };
-        let (offer_u, offer_k) = (offered(USEI), offered(KUSD));
-        if offer_u > u0 {
-            out.violation(P, "offer_within_holdings", format!("offers {} {} but holds {}", offer_u, USEI, u0));
-        }
-        if offer_k > kt {
-            out.violation(P, "offer_within_holdings", format!("offers {} {} but holds {} (incl. conversion proceeds)", offer_k, KUSD, kt));
-        }
+        let offer_u = offered(USEI);
         let offer_denom = if offer_u > 0 { USEI } else { KUSD };
         if bb + bs == 0 {
             return;
@@ -221,7 +217,14 @@ impl Monitor for C17 {
                 out.count("c17.swaps_rejected_nothing_bonded");
                 return;
             }
-            out.violation(P, "swap_executes", format!("SwapToRewardDenom failed for holdings ({} usei, {} kusd), bonded ({}, {}), price {}: {}", c.pre.bal(DISPATCHER, USEI), c.pre.bal(DISPATCHER, KUSD), bb, bs, c.w_pre.price, err));
+            // C17 promises that *dispatch* executes; of the swap it says that it never offers more of a coin than the
+            // dispatcher holds - which, on a chain whose bank refuses overdrafts, shows as exactly this failure. Any
+            // other refusal of a swap (nothing to swap, say) is C19's subject ("executes whenever stake is bonded").
+            if err.contains("insufficient") && err.contains(DISPATCHER) {
+                out.violation(P, "offer_within_holdings", format!("SwapToRewardDenom offered more than it holds: holdings ({} usei, {} kusd), bonded ({}, {}), price {}: {}", c.pre.bal(DISPATCHER, USEI), c.pre.bal(DISPATCHER, KUSD), bb, bs, c.w_pre.price, err));
+            } else {
+                out.count("c17.swaps_refused_for_other_reasons");
+            }
             return;
         }
         // DispatchRewards failed: recorded zero-coin finding, or a violation
